@@ -8,7 +8,7 @@ TECHNIQUE = 'runtime monitoring at the client boundary: signature discovered fro
 RULE = ('the same program space as C05; for each program the expected value is computed from the generator ground truth with '
         'signatures.forwards / merge / mask only (parameters, defaults and provenance compared; several values are admitted where the '
         'statement does not classify a construct or fixes no merge order), and two semantically irrelevant variants (other statement '
-        'contexts of the same scope class, decoys, unrelated statements, a wrapping-only decorator) must give the same signature and '
+        'contexts of the same deferral-depth class, decoys, unrelated statements, a wrapping-only decorator) must give the same signature and '
         'provenance. Non-trivial: a program whose discovered signature differs from the plain one; distinct as in C05.')
 ASSUMPTIONS = ['the merge order over several forwarding calls is not fixed by the statement: any permutation is accepted',
                'for a callee bound through partial(outer, callee) the expected provenance is the declared one with every depth + 1 and the partial object at depth 0 (C19)']
